@@ -59,6 +59,8 @@ func (d *driver) do(o op, rng *rand.Rand) error {
 		return d.commit(txs, o.Reapply)
 	case "reapply":
 		return d.commit(nil, true)
+	case "noop":
+		return d.noop()
 	case "finalize":
 		return d.finalize()
 	case "rollback":
